@@ -514,6 +514,33 @@ def fam_c07():
             add("arity-defer-fn%d-args%d" % (n, k), [fdef, FnStmt("d", [], [Defer(Call("f", *args)), P(40), Ret(I(0))]), Try([E(Call("d"))], "e", [P(60)]), P(61), Ret(I(0))])
     for k in (0, 1, 3):
         add("arity-go-fixed-args%d" % k, [Try([P(Call("pv", *[I(j + 1) for j in range(k)]))], "e", [P(60)]), P(61), Ret(I(0))])
+    # index targets: the right-hand side first, then the root, then every index expression once, left to right, then the store
+    def LetT(targets, rhs): return {"k": "let", "lhs": targets, "rhs": rhs if isinstance(rhs, list) else [rhs]}
+    fin = Ret(L(Nilco(Id("la"), S("undef")), Nilco(Id("ll"), S("undef")), Nilco(Id("ma"), S("undef")), Nilco(Id("ml"), S("undef")), Nilco(Id("lm"), S("undef"))))
+    def lt(name, setup, stmts): add("letitem-" + name, setup + [Try(stmts, "e", [P(60)]), P(61), fin])
+    LA = [Let("la", L(I(5), I(6), I(7)))]
+    LL = [Let("ll", L(L(I(1), I(2)), L(I(3))))]
+    MA = [Let("ma", M((S("k"), I(1))))]
+    ML = [Let("ml", M((S("a"), L(I(1)))))]
+    LM = [Let("lm", L(M((S("a"), I(1)))))]
+    LLL = [Let("ll", L(L(L(I(1)), L(I(2), I(3)))))]
+    for ix in (0, 2, 3, 4, -1):
+        lt("list-%d" % ix, LA, [LetT([Idx(Id("la"), PV(1, I(ix)))], PV(2, I(9)))])
+    lt("list-badindex", LA, [LetT([Idx(Id("la"), BAD)], PV(2, I(9)))])
+    lt("list-badrhs", LA, [LetT([Idx(Id("la"), PV(1, I(0)))], BAD)])
+    lt("list-undefined-root", [], [LetT([Idx(Id("nosuch"), PV(1, I(0)))], PV(2, I(9)))])
+    lt("list-two-targets", LA, [LetT([Idx(Id("la"), PV(1, I(0))), Idx(Id("la"), PV(2, I(1)))], [PV(3, I(8)), PV(4, I(9))])])
+    lt("list-target-and-name", LA, [LetT([Idx(Id("la"), PV(1, I(3))), Id("zq")], [PV(3, I(8)), PV(4, I(9))]), P(Id("zq"))])
+    for i, j in ((0, 0), (0, 1), (1, 0), (0, 2), (1, 1), (2, 0), (0, 5)):
+        lt("nested-%d-%d" % (i, j), LL, [LetT([Idx(Idx(Id("ll"), PV(1, I(i))), PV(2, I(j)))], PV(3, I(9)))])
+    for i, j, k in ((0, 0, 0), (0, 1, 1), (0, 1, 2), (0, 0, 1), (0, 2, 0)):
+        lt("nested3-%d-%d-%d" % (i, j, k), LLL, [LetT([Idx(Idx(Idx(Id("ll"), PV(1, I(i))), PV(2, I(j))), PV(3, I(k)))], PV(4, I(9)))])
+    for key in ("k", "new"):
+        lt("map-%s" % key, MA, [LetT([Idx(Id("ma"), PV(1, S(key)))], PV(2, I(5)))])
+    for key, j in (("a", 0), ("a", 1), ("a", 3), ("zz", 0)):
+        lt("list-in-map-%s-%d" % (key, j), ML, [LetT([Idx(Idx(Id("ml"), PV(1, S(key))), PV(2, I(j)))], PV(3, I(7)))])
+    for i, key in ((0, "a"), (0, "b"), (1, "a")):
+        lt("map-in-list-%d-%s" % (i, key), LM, [LetT([Idx(Idx(Id("lm"), PV(1, I(i))), PV(2, S(key)))], PV(3, I(3)))])
     # a Go panic inside the callee (slicing an unaddressable host array): arguments still evaluated once
     for n in range(0, 7):
         ps = ["a%d" % j for j in range(n)]
